@@ -4,7 +4,7 @@ import json
 import os
 import random
 
-from ..engines import rootchain
+from ..engines import noise, rootchain
 from ..gen import caselang, keys as gkeys, metadata as gmd, mutate, palette
 from ..monitors import boundary
 from ..refs import canonjson, schema
@@ -177,6 +177,8 @@ def run_random(spec, rec, lib):
         except (KeyError, IndexError, TypeError):
             continue
         judge(doc, rec, lib, label, push=(i % 3 == 0))
+        if i % 60 == 13:
+            noise.tick(lib, rng, spec.get("scratch"))
         if i < 2:
             rec.sample({"base": name, "mutation": mut})
 
